@@ -63,6 +63,38 @@ func runProg(p *parser.Program, funcs map[string]interface{}) vh.RunResult {
 	return vh.ExecProg(p, &interp.Config{Stdin: strings.NewReader(""), Funcs: funcs, Args: []string{}})
 }
 
+func fnNames(pg *prog) []string {
+	var ns []string
+	for _, f := range pg.Fns {
+		ns = append(ns, f.Name)
+	}
+	return ns
+}
+
+// shadowFuncs: base natives plus Go functions (of various signatures) named like some or all of the given AWK functions, plus one
+// entry that nothing calls.
+func shadowFuncs(base map[string]interface{}, awkNames []string, salt int) map[string]interface{} {
+	m := map[string]interface{}{"unusedNative": func(a float64) float64 { return a }}
+	for k, v := range base {
+		m[k] = v
+	}
+	for j, n := range awkNames {
+		switch (j + salt) % 4 {
+		case 0:
+			m[n] = func(a float64) float64 { return -a }
+		case 1:
+			m[n] = func(a, b string) string { return b + a }
+		case 2:
+			m[n] = func(args ...float64) float64 { return float64(len(args)) }
+		default:
+			if salt%2 == 0 { // sometimes only a subset collides
+				m[n] = func() int { return 7 }
+			}
+		}
+	}
+	return m
+}
+
 type c16Case struct {
 	Shape string `json:"shape"`
 	Src   string `json:"src"`
@@ -162,7 +194,9 @@ func runC16(c *vh.Ctx) {
 		"arguments, fewer arguments than parameters, guarded recursion) with 0-20% contradicting uses, plus the named shapes chain(n<=400, three " +
 		"name orders), cycle, diamond, unused-parameter, local-array, and call-shape programs (3-6 functions, 1-4 parameters mixing arrays and " +
 		"scalars in every order, nested user calls as scalar arguments up to depth 3, local arrays, fewer arguments) checked against a reference " +
-		"evaluator; each structured program under every permutation of its top-level items (<=6 items, else " +
+		"evaluator, deep-recursion programs (5-300 frames, 1-2 local arrays per frame, element/split/delete/sub writes into by-reference and " +
+		"global arrays at the bottom and on the way back) checked against a simulation, and every program once more with ParserConfig.Funcs " +
+		"entries named like its AWK functions; each structured program under every permutation of its top-level items (<=6 items, else " +
 		"sampled) and three renamings; non-trivial = the program has a call that passes a variable to an AWK function")
 
 	var progs []*prog
@@ -292,6 +326,26 @@ func runC16(c *vh.Ctx) {
 				fail("accepted program failed at run time", o.run.String(), "no error", "")
 			}
 		}
+		// an overridden native is irrelevant: ParserConfig.Funcs entries named like AWK functions of the program (the AWK definition
+		// takes precedence) and one more that nothing calls must change neither verdict, error, types nor behaviour
+		if len(pg.Fns) > 0 {
+			over := shadowFuncs(funcs, fnNames(pg), i)
+			v := parseSrc(o.src, over)
+			switch {
+			case v.panic_ != "":
+				fail("ParseProgram panicked when ParserConfig.Funcs has entries named like AWK functions", v.panic_, "", "")
+			case v.ok != o.base.ok || v.msg != o.base.msg || v.line != o.base.line || v.col != o.base.col:
+				fail("verdict or error changes when ParserConfig.Funcs has entries named like AWK functions (which override them)",
+					fmt.Sprint(v.ok, " ", v.line, ":", v.col, " ", v.msg), fmt.Sprint(o.base.ok, " ", o.base.line, ":", o.base.col, " ", o.base.msg), "")
+			case v.ok && v.types != o.base.types:
+				fail("type table changes when ParserConfig.Funcs has entries named like AWK functions", v.types, o.base.types, "")
+			case v.ok && o.inf.ok:
+				if r := runProg(v.prog, over); r.String() != o.run.String() {
+					fail("behaviour changes when Funcs has entries named like AWK functions", r.String(), o.run.String(), "")
+				}
+			}
+			o.nVar++
+		}
 		// permutations and renamings
 		for k, ord := range permSets[i] {
 			var ren func(string) string
@@ -362,6 +416,7 @@ func runC16(c *vh.Ctx) {
 
 	semanticProbes(c)
 	callShapeOracle(c)
+	deepRecOracle(c)
 
 	// correspondence with the Lean model
 	if c.HasLean() {
